@@ -37,7 +37,7 @@ Proof.
 Qed.
 
 (* every leading index is treated alike: row l of the result is the gather of row l of the data *)
-Lemma c12_nn_spec : forall rank1 nn nf ne t data res, c12_nn rank1 nn nf ne t data = Some res ->
+Lemma c12_nn_spec : forall nn nf ne t data res, c12_nn nn nf ne t data = Some res ->
   exists r0 kd, hd_error data = Some r0 /\
     c12_kind_by_length nn nf ne (Z.of_nat (length r0)) = Some kd /\
     length res = length data /\
@@ -47,10 +47,9 @@ Lemma c12_nn_spec : forall rank1 nn nf ne t data res, c12_nn rank1 nn nf ne t da
           exists s d, nth_error out i = Some (nth s row 0%Q) /\ nth_error keys s = Some d /\
                       forall j dj, nth_error keys j = Some dj -> d <= dj.
 Proof.
-  intros rank1 nn nf ne t data res H. unfold c12_nn in H.
+  intros nn nf ne t data res H. unfold c12_nn in H.
   destruct data as [|r0 data']; [discriminate|].
   destruct (c12_kind_by_length nn nf ne (Z.of_nat (length r0))) as [kd|] eqn:Ek; [|discriminate].
-  destruct (rank1 && Nat.eqb (length (c12_table t kd)) 1); [discriminate|].
   inversion H; subst; clear H. exists r0, kd.
   split; [reflexivity|]. split; [exact Ek|]. split; [cbn [length]; f_equal; apply map_length|].
   { intros l row Hl. exists (c12_nn_row (c12_table t kd) row). split.
@@ -99,21 +98,16 @@ Qed.
 
 (* remapping onto the source grid's own elements is the identity (kind taken as coded: under the
    hypothesis that the coded choice is the data's kind) *)
-Lemma c12_nn_identity : forall rank1 nn nf ne t data kd r0,
+Lemma c12_nn_identity : forall nn nf ne t data kd r0,
   hd_error data = Some r0 ->
   c12_kind_by_length nn nf ne (Z.of_nat (length r0)) = Some kd ->
   c12_own_table (c12_table t kd) ->
   Forall (fun row => length row = length (c12_table t kd)) data ->
-  rank1 = false \/ length (c12_table t kd) <> 1%nat ->
-  c12_nn rank1 nn nf ne t data = Some data.
+  c12_nn nn nf ne t data = Some data.
 Proof.
-  intros rank1 nn nf ne t data kd r0 Hhd Hk Hown Hall Hr. unfold c12_nn.
+  intros nn nf ne t data kd r0 Hhd Hk Hown Hall. unfold c12_nn.
   destruct data as [|r data']; [discriminate|]. cbn in Hhd. inversion Hhd; subst r0.
-  rewrite Hk.
-  assert (E : rank1 && Nat.eqb (length (c12_table t kd)) 1 = false).
-  { destruct Hr as [->|Hn]; [reflexivity|]. destruct (Nat.eqb_spec (length (c12_table t kd)) 1); [contradiction|].
-    apply andb_false_r. }
-  rewrite E. f_equal. rewrite <- (map_id (r :: data')) at 2.
+  rewrite Hk. f_equal. rewrite <- (map_id (r :: data')) at 2.
   apply map_ext_in. intros row Hin. rewrite Forall_forall in Hall.
   apply c12_nn_identity_row; auto. symmetry. apply Hall. exact Hin.
 Qed.
@@ -402,33 +396,19 @@ Example c12_idw_answers_nonvacuous : exists res,
           1%positive 2%nat (1 # 1000000)%Q 15%nat = Some [res].
 Proof. eexists. vm_compute. reflexivity. Qed.
 
-(* nearest-neighbour remapping answers whenever the trailing length is one of the counts, a single
-   destination point included - except one-dimensional data onto a single destination point *)
-Lemma c12_nn_answers : forall rank1 nn nf ne t data r0 kd,
+(* nearest-neighbour remapping answers whenever the trailing length is one of the counts, whatever
+   the rank of the data and the number of destination points (one included) *)
+Lemma c12_nn_answers : forall nn nf ne t data r0 kd,
   hd_error data = Some r0 -> c12_kind_by_length nn nf ne (Z.of_nat (length r0)) = Some kd ->
-  rank1 = false \/ length (c12_table t kd) <> 1%nat ->
-  exists res, c12_nn rank1 nn nf ne t data = Some res.
+  exists res, c12_nn nn nf ne t data = Some res.
 Proof.
-  intros rank1 nn nf ne t data r0 kd Hhd Hk Hr. unfold c12_nn.
-  destruct data as [|r data']; [discriminate|]. cbn in Hhd. inversion Hhd; subst r0. rewrite Hk.
-  assert (E : rank1 && Nat.eqb (length (c12_table t kd)) 1 = false).
-  { destruct Hr as [->|Hn]; [reflexivity|]. destruct (Nat.eqb_spec (length (c12_table t kd)) 1); [contradiction|].
-    apply andb_false_r. }
-  rewrite E. eauto.
+  intros nn nf ne t data r0 kd Hhd Hk. unfold c12_nn.
+  destruct data as [|r data']; [discriminate|]. cbn in Hhd. inversion Hhd; subst r0. rewrite Hk. eauto.
 Qed.
 
 Example c12_single_destination_nonvacuous :
-  c12_nn false 3 1 4 {| cd_node := [[5; 1; 7]]; cd_face := []; cd_edge := [] |} [[1#1; 2#1; 3#1]%Q] = Some [[2#1]%Q].
+  c12_nn 3 1 4 {| cd_node := [[5; 1; 7]]; cd_face := []; cd_edge := [] |} [[1#1; 2#1; 3#1]%Q] = Some [[2#1]%Q].
 Proof. vm_compute. reflexivity. Qed.
-
-(* one-dimensional node data on three nodes, one destination point: rejected although admissible *)
-Lemma c12_nn_rank1_single_destination_refuted : exists nn nf ne t data,
-  hd_error data = Some [1#1; 2#1; 3#1]%Q /\ c12_kind_by_length nn nf ne 3 = Some C11Nodes /\
-  c12_table t C11Nodes = [[5; 1; 7]] /\ c12_nn true nn nf ne t data = None.
-Proof.
-  exists 3, 1, 4, {| cd_node := [[5; 1; 7]]; cd_face := []; cd_edge := [] |}, [[1#1; 2#1; 3#1]%Q].
-  repeat split; reflexivity.
-Qed.
 
 (* ------------------------------------------------------------------------------------------ *)
 (* dimensions                                                                                 *)
@@ -453,7 +433,7 @@ Definition c12_ex_t : c12_dists :=
   {| cd_node := [[0; 5; 9]; [5; 0; 7]; [9; 7; 0]]; cd_face := [[3]; [4]; [8]]; cd_edge := [[1; 2; 6]; [2; 1; 4]; [6; 4; 1]] |}.
 
 Example c12_nn_nonvacuous :
-  c12_nn false 3 1 3 c12_ex_t ([[1#1; 2#1; 3#1]; [4#1; 5#1; 6#1]])%Q = Some ([[1#1; 2#1; 3#1]; [4#1; 5#1; 6#1]])%Q.
+  c12_nn 3 1 3 c12_ex_t ([[1#1; 2#1; 3#1]; [4#1; 5#1; 6#1]])%Q = Some ([[1#1; 2#1; 3#1]; [4#1; 5#1; 6#1]])%Q.
 Proof. vm_compute. reflexivity. Qed.
 
 Example c12_own_table_nonvacuous : c12_own_table (cd_node c12_ex_t).
